@@ -2177,6 +2177,22 @@ void mmd_export_token_latex_tt(DString * out, const char * source, token * t, sc
 			print_const("<");
 			break;
 
+		case BRACKET_CITATION_LEFT:
+			print_const("[\\#");
+			break;
+
+		case BRACKET_FOOTNOTE_LEFT:
+			print_const("[\\^{}");
+			break;
+
+		case BRACKET_VARIABLE_LEFT:
+			print_const("[\\%");
+			break;
+
+		case RAW_FILTER_LEFT:
+			print_const("\\{=");
+			break;
+
 		case ANGLE_RIGHT:
 			print_const(">");
 			break;
